@@ -19,10 +19,10 @@ theorem last_rank_numbers : lastRankNumbers = [1, 3, 2] := by decide
     a learned base is searched for words of at least two (`selectedFor`: `w.length ≥ 2`) -/
 theorem length_guards : suffixMinLen = 3 ∧ prevSelMinLen = 2 := by decide
 
-/-- joining rules (`joinSuffix`): push য়; ৎ → ত; ং → ঙ — at both call sites -/
+/-- joining rules (`joinSuffix`): push য়; ৎ → ত; ং → ঙ — in every copy of the joining code (two call sites, or one helper) -/
 theorem joining_characters :
-    joinPushed = [cY.toNat, cT.toNat, cNga.toNat, cY.toNat, cT.toNat, cNga.toNat] ∧
-    joinMatched = [cKhandaTa.toNat, cAnushar.toNat, cKhandaTa.toNat, cAnushar.toNat] := by decide
+    joinPushedGroups = [[cY.toNat, cT.toNat, cNga.toNat]] ∧
+    joinMatchedGroups = [[cKhandaTa.toNat, cAnushar.toNat]] := by decide
 
 /-- emoji rank numbers start at 1 in both methods (`zipIdx 1`) -/
 theorem emoji_rank_starts : emojiRankStarts = [1, 1] := by decide
@@ -30,14 +30,14 @@ theorem emoji_rank_starts : emojiRankStarts = [1, 1] := by decide
 /-- fixed method: cut to 8 + English item (rank `Last _ 1`) or to 9 (`fixedCands`) -/
 theorem fixed_truncation : fixedTruncations = [8, 9] ∧ fixedLastRankNumbers = [1] := by decide
 
-/-- both copies of the sign → independent-vowel table in `process_key_value` (automatic vowel forming; hasanta +
-    sign) are the single `karToVowel` of the model: every listed sign maps to the listed vowel, and the tables
-    list exactly the ten signs on which `karToVowel` is defined (of the eleven of `is_kar`) -/
+/-- every copy of the sign → independent-vowel table in fixed/method.rs (automatic vowel forming; hasanta + sign; or one
+    shared helper) is the single `karToVowel` of the model: every listed sign maps to the listed vowel, and each table lists
+    exactly the ten signs on which `karToVowel` is defined (of the eleven of `is_kar`) -/
 theorem sign_vowel_tables :
-    signVowelAuto.all (fun p => karToVowel (Char.ofNat p.1) == some (Char.ofNat p.2)) = true ∧
-    signVowelHasanta.all (fun p => karToVowel (Char.ofNat p.1) == some (Char.ofNat p.2)) = true ∧
-    karSet.all (fun k => (karToVowel (Char.ofNat k)).isSome == (signVowelAuto.map Prod.fst).contains k) = true ∧
-    signVowelAuto.map Prod.fst = signVowelHasanta.map Prod.fst := by decide
+    signVowelTables ≠ [] ∧
+    signVowelTables.all (fun t =>
+      t.all (fun p => karToVowel (Char.ofNat p.1) == some (Char.ofNat p.2)) &&
+      karSet.all (fun k => (karToVowel (Char.ofNat k)).isSome == (t.map Prod.fst).contains k)) = true := by decide
 
 /-- the two key values with rules of their own (`zoFola`, `rephValue`) -/
 theorem special_values : zoFolaLiteral = zoFola.map Char.toNat ∧ rephLiteral = rephValue.map Char.toNat := by decide
